@@ -20,7 +20,7 @@ FUNCTIONS = ["DataFrameToFlodymDataConverter._check_data_complete", "DataFrameTo
 ASSUMPTIONS = ["no cell value truncates to a numeric item of a dimension (value/item confusion is explored by C11)", "cell values pairwise different for frames with more than 4 cells", "file parsing is outside: pd.read_csv / pd.read_excel are replaced by a stub returning the prepared frame (the readers' flag forwarding and the call into from_df are inside)",
                "no cell value truncates to a numeric item of a dimension for frames with more than 4 cells"]
 OUTSIDE = ["CSV / Excel text parsing", "more than two simultaneous faults", "frames with more than 6 rows"]
-VARIANTS = 'a second non-dimension column holding text; an unknown item in a one-item dimension column headed by neither name nor letter; labels stored as text in an integer dimension; row labels as pd.concat leaves them; falsy unknown labels; readers through CompoundDataReader.read_parameters; an ignored row without a value; a 1-d array over items 0..n-1; infinite present entries (float64 run)'
+VARIANTS = 'an unknown integer label between two known ones; a nullable-integer value column with pd.NA (float64 run); a second non-dimension column holding text; an unknown item in a one-item dimension column headed by neither name nor letter; labels stored as text in an integer dimension; row labels as pd.concat leaves them; falsy unknown labels; readers through CompoundDataReader.read_parameters; an ignored row without a value; a 1-d array over items 0..n-1; infinite present entries (float64 run)'
 BOUNDS = {"quick": dict(dimsets=["r2", "a3i0", "T2_r2", "r2_p3u", "s1_r2_p2"], layouts="long (columns / index) and wide", faults="every single fault at every position; every pair on frames <= 4 rows",
                         flags="all four combinations"),
           "thorough": dict(dimsets=["r2", "a3i0", "t2i", "T2_r2", "r2_p3u", "s1_r2_p2", "T2_r2_p2"], layouts="as quick", faults="every single fault and every pair at every position (frames <= 8 rows)", flags="all four combinations")}
@@ -29,7 +29,7 @@ for _t in BOUNDS.values():
 OPTS = {"quick": dict(shadow_every=25, max_paths=300, max_depth=600), "thorough": dict(shadow_every=100, max_paths=1000, max_depth=1500)}
 # rows with unknown labels get NaN positions: the float64 path casts them to an integer silently where the object path would
 # raise, so these configurations are always run once more on the unstubbed float64 code as well (shadow, 2.5)
-SHADOW_ALWAYS = lambda cfg: cfg.get("infinite") or any(f[0].startswith(("relabel", "extra_row")) for f in cfg.get("faults", []))
+SHADOW_ALWAYS = lambda cfg: cfg.get("infinite") or any(f[0].startswith(("relabel", "extra_row", "blank_na_int")) for f in cfg.get("faults", []))
 FLAGS = [(False, False), (True, False), (False, True), (True, True)]  # (allow_missing, allow_extra)
 
 
@@ -58,7 +58,10 @@ def _single_faults(name, layout):
     for i in range(n):
         out += [("drop", i), ("dup", i), ("dup_other_value", i), ("relabel", i), ("blank_nan", i), ("blank_none", i), ("extra_row", i)]
         if i in (0, n - 1):
+            out.append(("blank_na_int", i))  # (decided by the float64 run: a nullable-integer value column whose empty cell is pd.NA)
             out += [("relabel_falsy", i), ("extra_row_falsy", i), ("extra_row_blank", i)]  # (blank: a row to be ignored that has no value either)
+        if spec[0][3] is int and len(spec[0][2]) >= 2 and spec[0][2][1] - spec[0][2][0] > 1 and i in (0, n - 1):
+            out.append(("relabel_between", i))  # an unknown integer label strictly between two known ones (1995 in 1990, 2000, 2010)
         if any(s[3] is int for s in spec):
             out.append(("dup_retyped", i))  # the same labels once more, the integer-typed one stored as text
     for k, s in enumerate(spec):
@@ -153,6 +156,7 @@ def _build(cfg, w):
         rows.append([tuple(s[2][i] for s, i in zip(spec, idx)), X[idx]])
     removed_dims, extra_value_col, removed_item_cols = [], False, []
     extra_text_col, unnamed_col = False, None
+    na_int = False
     layout = cfg["layout"]
     faults = [tuple(f) for f in cfg["faults"]]
     if layout != "wide":
@@ -167,9 +171,9 @@ def _build(cfg, w):
                 adds.append([base[f[1]][0], fresh(f"dupval{f[1]}", 77.5)])
             elif f[0] == "dup_retyped":
                 adds.append([tuple(str(l) if sp[3] is int else l for l, sp in zip(base[f[1]][0], spec)), fresh(f"retypedval{f[1]}", 66.5)])
-            elif f[0] in ("relabel", "relabel_falsy"):
+            elif f[0] in ("relabel", "relabel_falsy", "relabel_between"):
                 lab = list(base[f[1]][0])
-                lab[0] = _unknown_item(spec[0], falsy=f[0].endswith("falsy"))
+                lab[0] = (spec[0][2][0] + spec[0][2][1]) // 2 if f[0] == "relabel_between" else _unknown_item(spec[0], falsy=f[0].endswith("falsy"))
                 base[f[1]] = [tuple(lab), base[f[1]][1]]
             elif f[0] == "extra_row_blank":
                 lab = list(base[f[1]][0])
@@ -179,8 +183,9 @@ def _build(cfg, w):
                 lab = list(base[f[1]][0])
                 lab[-1] = _unknown_item(spec[-1], falsy=f[0].endswith("falsy"))
                 adds.append([tuple(lab), fresh(f"extraval{f[0][9:]}{f[1]}", 55.5)])
-            elif f[0] == "blank_nan":
+            elif f[0] in ("blank_nan", "blank_na_int"):
                 base[f[1]] = [base[f[1]][0], float("nan")]
+                na_int = na_int or f[0] == "blank_na_int"
             elif f[0] == "blank_none":
                 base[f[1]] = [base[f[1]][0], None]
             elif f[0] == "drop_dim_column":
@@ -197,8 +202,15 @@ def _build(cfg, w):
                 unnamed_col = k1
         final = [r for i, r in enumerate(base) if i not in drops] + adds
         data = {s[1]: [r[0][k] for r in final] for k, s in enumerate(spec)}
+        if na_int and not w.sym:
+            # float64 run only: whole-numbered values in a pandas nullable-integer column, the empty cell being pd.NA
+            for r in final:
+                if not (r[1] is None or (isinstance(r[1], float) and r[1] != r[1])):
+                    r[1] = float(int(round(float(r[1]))))
         data["value"] = [r[1] for r in final]
         df = pd.DataFrame(data)
+        if na_int and not w.sym:
+            df["value"] = pd.array([None if (v is None or v != v) else int(v) for v in data["value"]], dtype="Int64")
         if w.sym:
             df["value"] = df["value"].astype(object)
         if cfg.get("rowlabels") == "concat" and adds:
